@@ -10,3 +10,9 @@ uint64_t nondet_u64(void) { uint64_t verif_nd = __VERIFIER_nondet_ulong(); retur
 double nondet_double(void) { double verif_nd = __VERIFIER_nondet_double(); return verif_nd; }
 float nondet_float(void) { float verif_nd = __VERIFIER_nondet_float(); return verif_nd; }
 _Bool nondet_bool(void) { uint8_t verif_nd = __VERIFIER_nondet_uchar(); __CPROVER_assume(verif_nd <= 1); return verif_nd; }
+/* nondeterminism consumed by MODELS/abstractions (not by the harness): recorded with an 'm' type tag so
+ * that native replay, where the real function runs instead of the model, skips these values */
+uint8_t nondet_model_u8(void) { uint8_t verif_nd = __VERIFIER_nondet_uchar(); return verif_nd; }
+uint32_t nondet_model_u32(void) { uint32_t verif_nd = __VERIFIER_nondet_uint(); return verif_nd; }
+uint64_t nondet_model_u64(void) { uint64_t verif_nd = __VERIFIER_nondet_ulong(); return verif_nd; }
+double nondet_model_double(void) { double verif_nd = __VERIFIER_nondet_double(); return verif_nd; }
